@@ -110,3 +110,45 @@ def poly_mul_gf256(p: Sequence[int], q: Sequence[int], prim_poly: int = 0x11D) -
         for j, b in enumerate(q):
             out[i + j] ^= gf256_mul(a, b, prim_poly)
     return out
+
+
+def gf2_solve(eqs, nbits: int):
+    """solve the affine system {parity(m & x) == c for (m, c) in eqs} over GF(2) in nbits unknowns: None when it is inconsistent,
+    else (one solution as a bit mask with every free unknown 0, a basis of the homogeneous solutions as bit masks)"""
+    piv = {}
+    for m, c in eqs:
+        for p_, (mp, cp) in piv.items():
+            if m >> p_ & 1:
+                m ^= mp
+                c ^= cp
+        if m == 0:
+            if c:
+                return None
+            continue
+        p = m.bit_length() - 1
+        for q in list(piv):
+            mq, cq = piv[q]
+            if mq >> p & 1:
+                piv[q] = (mq ^ m, cq ^ c)
+        piv[p] = (m, c)
+    x0 = 0
+    for p, (m, c) in piv.items():
+        if c:
+            x0 |= 1 << p
+    basis = []
+    for f in range(nbits):
+        if f in piv:
+            continue
+        v = 1 << f
+        for p, (m, c) in piv.items():
+            if m >> f & 1:
+                v |= 1 << p
+        basis.append(v)
+    return x0, basis
+
+
+def gf2_implied(form, eqs) -> bool:
+    """is parity(m & x) == c (form = (m, c)) implied by the consistent affine system eqs?"""
+    key = lambda mc: (mc[0] << 1) | mc[1]
+    base = [key(e) for e in eqs]
+    return gf2_rank(base + [key(form)]) == gf2_rank(base)
